@@ -7,7 +7,10 @@ PROP = {
              "block.tlb structures (MsgAddress, Grams, VarUInteger16, ExtraCurrencyCollection, CurrencyCollection, CommonMsgInfo, "
              "TickTock, SimpleLib, StateInit, Message, AccountStatus, AccStatusChange, ComputeSkipReason, HASH_UPDATE, StorageUsedShort, "
              "the five transaction phases, SplitMergeInfo, TransactionDescr, Transaction, signed wallet body) over 40 (800 thorough) "
-             "random values each; (3) ton.CreateExternalMessage envelopes (workchains 0/-1/random, with and without state-init, random "
+             "random values each; (2b) the cursor family: the same structures that hold a bit string or a cell (MsgAddress, CommonMsgInfo, "
+             "Message: 120 values; StateInit, SimpleLib, Transaction, TransactionDescr, signed body: 25) after the read cursors inside "
+             "the Go value were advanced by 1/3/8/9/64/511 bits (a value that was decoded and inspected before being re-encoded): "
+             "the cell must still be the schema serialisation and equal the cell of the fresh value; (3) ton.CreateExternalMessage envelopes (workchains 0/-1/random, with and without state-init, random "
              "bodies and fees); (4) every message and transaction of the five testdata blocks (re-encoded hash = source hash on the "
              "implementation; transactions modulo the out_msgs dictionary cell). Per case the cell tlb.Marshal produces is compared "
              "with the model's cell, and the model reports whether the descriptor refines the block.tlb transcription and whether its "
